@@ -1,6 +1,6 @@
 """Wrapper around the real CLI entry point (gapic.cli.generate.generate) used by the C10 engine.
 
-  gencli.py --clock <instant> --count-file <path> [--stdin] (<request-file> <output-file>)+
+  gencli.py --clock <instant> --count-file <path> [--stdin] ([--cd <dir>] <request-file> <output-file>)+
 
 * installs the pandoc pass-through stub (binary absent in the sandbox);
 * installs a fake wall clock (time.time/time_ns/gmtime/localtime, datetime.now/utcnow/today) that
@@ -84,12 +84,20 @@ def main(argv):
             count_file = argv[i + 1]; i += 2
         elif argv[i] == "--stdin":
             use_stdin = True; i += 1
+        elif argv[i] == "--cd":
+            pairs.append(("--cd", argv[i + 1])); i += 2
         else:
             pairs.append((argv[i], argv[i + 1])); i += 2
     _install_clock(instant)
     from gapic.cli.generate import generate
     rc = 0
-    for n, (req, out) in enumerate(pairs):
+    import os
+    n = -1
+    for (req, out) in pairs:
+        if req == "--cd":
+            os.chdir(out)          # a build worker moves to the next library's directory between generations
+            continue
+        n += 1
         ARMED[0] = True
         try:
             if use_stdin and n == 0:
